@@ -512,6 +512,177 @@ def _mk_transform_entries():
 _mk_transform_entries()
 
 
+# ---- SpatialTransform.points for every axes pair / other grids, disp and flow on other grids, linked inverse
+# ---- evaluated without update(), data tensor types (FlowFields / ImageBatch) -------------------------------
+def _other_grids(g):
+    """Grids other than the transform's own: same domain other size, other domain, same geometry other flag."""
+    from deepali.core.grid import Grid
+
+    D = g.ndim
+    size = [int(n) for n in g.size()]
+    sp = [float(v) for v in g.spacing()]
+    return OrderedDict(
+        [
+            ("same-domain", g.resize(tuple(n + 2 for n in size))),
+            ("other-domain", Grid(size=tuple(n + 1 for n in size), spacing=tuple(0.8 * v for v in sp), center=tuple(0.1 * v * (i + 1) for i, v in enumerate(sp)), align_corners=g.align_corners())),
+            ("other-flag", g.align_corners(not g.align_corners())),
+        ]
+    )
+
+
+POINTS_KINDS = ("AffineTransform", "EulerRotation", "DDF", "SVF")
+AXES_NAMES = ("grid", "cube", "cube_corners", "world")
+
+
+def _mk_points_entries():
+    for kind in POINTS_KINDS:
+        for a in AXES_NAMES:
+            for b in AXES_NAMES:
+                def b_pts(D, tab, tier, kind=kind, a=a, b=b):
+                    t = _transform(kind, D, tier, tab)
+                    if t is None:
+                        return None
+                    g = t.grid()
+                    og = _other_grids(g)["other-domain"]
+                    x0 = _points(D, tab, M=4, salt=7, lim=0.5)
+                    xa = leaf(g.transform_points(x0, axes=t.axes(), to_axes=a, decimals=None))
+                    xo = leaf(og.transform_points(g.transform_points(x0, axes=t.axes(), to_axes="world", decimals=None), axes="world", to_axes=a, decimals=None))
+                    ins = _params(t)
+                    ins["points"] = xa
+                    ins["points_other_grid"] = xo
+
+                    def f():
+                        t.update()
+                        return (
+                            t.points(xa, axes=a, to_axes=b),
+                            t.points(xa, axes=a, to_grid=og, to_axes=b),
+                            t.points(xo, grid=og, axes=a, to_axes=b),
+                        )
+
+                    return Entry(f"{kind}.points", ins, f)
+
+                ENTRIES[f"transform/{kind}/points/{a}->{b}"] = (b_pts, (2, 3))
+            def b_dflt(D, tab, tier, kind=kind, a=a):
+                t = _transform(kind, D, tier, tab)
+                if t is None:
+                    return None
+                g = t.grid()
+                og = _other_grids(g)["same-domain"]
+                xa = leaf(g.transform_points(_points(D, tab, M=4, salt=8, lim=0.5), axes=t.axes(), to_axes=a, decimals=None))
+                ins = _params(t)
+                ins["points"] = xa
+
+                def f():
+                    t.update()
+                    return t.points(xa, axes=a), t.points(xa, axes=a, to_grid=og)  # to_axes defaults to axes
+
+                return Entry(f"{kind}.points", ins, f)
+
+            ENTRIES[f"transform/{kind}/points/{a}->default"] = (b_dflt, (2, 3))
+
+
+_mk_points_entries()
+
+OTHER_GRID_KINDS = ("Translation", "EulerRotation", "AffineTransform", "DDF", "SVF", "FFD", "SVFFD", "SeqAffineDDF")
+
+
+def _mk_other_grid_entries():
+    for kind in OTHER_GRID_KINDS:
+        for gname in ("own", "same-domain", "other-domain", "other-flag"):
+            for view in ("disp", "flow"):
+                if view == "disp" and gname == "own":
+                    continue  # transform/<kind>/disp
+
+                def b(D, tab, tier, kind=kind, gname=gname, view=view):
+                    t = _transform(kind, D, tier, tab)
+                    if t is None:
+                        return None
+                    g2 = t.grid() if gname == "own" else _other_grids(t.grid())[gname]
+
+                    def f():
+                        t.update()
+                        if view == "disp":
+                            return t.disp(g2)
+                        return t.flow(g2).tensor()
+
+                    return Entry(f"{kind}.{view}({gname})", _params(t), f)
+
+                ENTRIES[f"transform/{kind}/{view}@{gname}"] = (b, (2, 3))
+
+
+_mk_other_grid_entries()
+
+
+def _mk_linked_inverse_entries():
+    for kind in INVERTIBLE:
+        for how in ("inverse(link=True)", "inv"):
+            def b(D, tab, tier, kind=kind, how=how):
+                t = _transform(kind, D, tier, tab)
+                if t is None:
+                    return None
+                x = _points(D, tab, M=4, salt=9, lim=0.5)
+
+                def f():
+                    # the linked inverse is used directly: no __call__, no update() before tensor()/disp()/points()
+                    inv = t.inv if how == "inv" else t.inverse(link=True)
+                    out = [inv.tensor(), inv.disp(), inv.points(x)]
+                    if hasattr(inv, "matrix"):
+                        out.append(inv.matrix())
+                    return out
+
+                return Entry(f"{kind}.{how} without update", _params(t), f)
+
+            ENTRIES[f"transform/{kind}/linked-inverse-no-update/{how}"] = (b, (2, 3))
+
+
+_mk_linked_inverse_entries()
+
+
+@entry("data/FlowFields/tensor+sample+axes")
+def _(D, tab, tier):
+    from deepali.data import FlowFields
+
+    g = _grid(D, tier, small=True)
+    u = leaf(smooth_field(D, tuple(g.shape), tab, 90, amp=0.1))
+    og = _other_grids(g)
+
+    def f():
+        ff = FlowFields(u * 1.0, grid=g)
+        return ff.tensor(), ff.sample(og["same-domain"]).tensor(), ff.sample(og["other-domain"]).tensor(), ff.axes("world").tensor()
+
+    return Entry("FlowFields", OrderedDict(data=u), f)
+
+
+@entry("data/FlowFields/exp+warp_image")
+def _(D, tab, tier):
+    from deepali.data import FlowFields, ImageBatch
+
+    g = _grid(D, tier, small=True)
+    u = leaf(smooth_field(D, tuple(g.shape), tab, 91, amp=0.1))
+    img = leaf(image(tuple(g.shape), tab, 92, C_=1))
+
+    def f():
+        ff = FlowFields(u * 1.0, grid=g)
+        return ff.exp(steps=2).tensor(), ff.warp_image(ImageBatch(img * 1.0, grid=g)).tensor()
+
+    return Entry("FlowFields", OrderedDict(data=u, image=img), f)
+
+
+@entry("data/ImageBatch/tensor+sample+resize")
+def _(D, tab, tier):
+    from deepali.data import ImageBatch
+
+    g = _grid(D, tier, small=True)
+    x = leaf(image(tuple(g.shape), tab, 93, C_=2))
+    og = _other_grids(g)
+
+    def f():
+        im = ImageBatch(x * 1.0, grid=g)
+        return im.tensor(), im.sample(og["other-domain"]).tensor(), im.resize(tuple(int(n) + 2 for n in g.size())).tensor()
+
+    return Entry("ImageBatch", OrderedDict(data=x), f)
+
+
 # ---- core image / flow functions ------------------------------------------------
 def _U():
     import deepali.core.functional as U
